@@ -37,7 +37,9 @@ type c01Case struct {
 	Nested   bool   `json:"nested,omitempty"`
 }
 
-var methodPool = []string{"", "echo", "метод", "日本語メソッド", "a.b/c", "__describe__", " spaced ", "x\x00y"}
+var methodPool = []string{"", "echo", "метод", "日本語メソッド", "a.b/c", "__describe__", " spaced ", "x\x00y",
+	// code points at the edges of the UTF-8 encoding lengths and the ones decoders treat specially
+	"\uFFFD", "a\uFFFDb", "\uFEFFbom", "\u007F\u0080", "\u07FF\u0800", "\uD7FF\uE000", "\uFFFE\uFFFF", "\U00010000\U0010FFFF"}
 
 func genMethod(t *rapid.T) string {
 	switch rapid.IntRange(0, 3).Draw(t, "mkind") {
